@@ -90,6 +90,8 @@ def disabled_does_nothing(ctx):
 
 
 def run(ctx):
+    from .C11 import instances_kept_only_if_ran
+    instances_kept_only_if_ran(ctx)
     saved_context_is_a_copy(ctx, "C02")
     resume_follows_clear(ctx, "C02")
     detector_walk_every_tick(ctx, "C02")
